@@ -189,6 +189,24 @@ def check(case, ctx):
                     ctx.fail('exact-abundance', c['sum'][1], c['sum'][0], mass=[c['lo'], c['hi']], comp=comp, resolution=r,
                              peaks=c['n'])
                     break
+        # whole-number counts given as floats (12.0 atoms) describe the same composition
+        st0, base = lib.call(p.isotopic_distribution, dict(comp), distribution_resolution=5)
+        first = sorted(comp)[0]
+        for variant in ({e: float(v) for e, v in comp.items()}, dict(comp, **{first: float(comp[first])}),
+                        dict({e: float(v) for e, v in comp.items()}, p=1.0)):
+            ref_d = base
+            if 'p' in variant:
+                st0p, ref_d = lib.call(p.isotopic_distribution, dict(comp, p=1), distribution_resolution=5)
+                if st0p != 'ok':
+                    continue
+            st1, d1 = lib.call(p.isotopic_distribution, dict(variant), distribution_resolution=5)
+            ctx.evals += 1
+            same = st0 == 'ok' and st1 == 'ok' and len(d1) == len(ref_d) and all(
+                abs(m1 - m0) <= 2e-5 and abs(a1 - a0) <= 1e-7 for (m1, a1), (m0, a0) in zip(d1, ref_d))
+            if not same:
+                ctx.fail('float-typed-whole-counts', ref_d if st0 == 'ok' else str(ref_d), d1 if st1 == 'ok' else str(d1)[:200],
+                         comp=variant)
+                break
         ctx.outcome = [comp, len(dist)]
         return
     if case['kind'] == 'merge':
